@@ -53,7 +53,9 @@ let openp (z : Model.z) : Model.page Model.res =
 let store_model = ref false
 let dbst : Model.dbstate ref = ref Model.init_state
 let image : Model.byte list ref = ref []
-let env () = { Model.e_img = !image; Model.e_journal = None; Model.e_reserved = false }
+let journal_bytes : Model.byte list option ref = ref None
+let reserved = ref false
+let env () = { Model.e_img = !image; Model.e_journal = !journal_bytes; Model.e_reserved = !reserved }
 let openp_st (z : Model.z) : Model.page Model.res =
   let (r, st') = Model.open_page (env ()) !dbst z in dbst := st'; r
 let the_store z = if !store_model then openp_st z else openp z
@@ -120,7 +122,26 @@ let () =
       else if line.[0] = '#' then (print_endline line; flush stdout)
       else if starts_with "db " line then load_image (String.sub line 3 (String.length line - 3)) false
       else if starts_with "reload " line then load_image (String.sub line 7 (String.length line - 7)) true
+      else if starts_with "crashphases" line then begin
+        (* the order of a writer's file operations against Model/Crash.v's protocol automaton *)
+        let tok t = match String.split_on_char ':' t with
+          | ["C"] -> Model.OJCreate [] | ["A"] -> Model.OJAppend [] | ["S"] -> Model.OJSync | ["M"] -> Model.OJMagic []
+          | ["D"] -> Model.ODbWrite | ["Y"] -> Model.ODbSync | ["X"] -> Model.OCommitDelete | ["T"] -> Model.OCommitTruncate
+          | ["Z"] -> Model.OCommitZero | ["O"; off] -> Model.OJPatch (nat_of_int (min 100 (int_of_string off)), [])
+          | _ -> failwith ("bad op " ^ t) in
+        let ops = List.map tok (List.filter (fun x -> x <> "") (List.tl (String.split_on_char ' ' line))) in
+        print_endline (match Model.phases Model.PStart ops with
+          | None -> "protocol violated" | Some Model.PStart -> "start" | Some Model.PBuilding -> "building"
+          | Some Model.PHot -> "hot" | Some Model.PDone -> "done")
+      end
       else if starts_with "lock " line then run_lock (String.split_on_char ' ' line)
+      else if starts_with "jfile " line then begin
+        (* the -journal file next to the database: "jfile -" = no such file *)
+        let a = String.sub line 6 (String.length line - 6) in
+        journal_bytes := (if a = "-" then None else Some (bytes_of_string (read_file a)))
+      end
+      else if line = "reserved on" then reserved := true
+      else if line = "reserved off" then reserved := false
       else if line = "store model" then (store_model := true; dbst := Model.init_state)
       else if line = "store memo" then store_model := false
       else if line = "rlock" then (if !store_model then dbst := Model.rlock !dbst)
